@@ -89,6 +89,7 @@ structure St where
   lk : Lkcd := ⟨0⟩
   lastLoad : Option Nat := none
   lastVload : Option Nat := none
+  fcfile : List Nat := []                        -- lines fcfile / fcget: the file behind the file cache
 
 /-- the state a freshly opened context has (settings that are inputs are kept) -/
 def St.fresh (s : St) : St := { s with pc := PCache.init 1024, csize := 0, lk := ⟨0⟩, lastLoad := none, lastVload := none }
@@ -268,12 +269,30 @@ def readLocked (s : St) (as addr len : Nat) : St × String × Nat × UInt64 := I
 def showRead (r : String × Nat × UInt64) : String :=
   if r.1 = "unmodelled" then "unmodelled" else s!"{r.1} {r.2.1} {r.2.2}"
 
+def hexv (c : Char) : Nat := if c.isDigit then c.toNat - '0'.toNat else c.toNat - 'a'.toNat + 10
+def hexd (n : Nat) : Char := if n < 10 then Char.ofNat (48 + n) else Char.ofNat (87 + n)
+
 partial def loop (h : IO.FS.Stream) (s : St) : IO Unit := do
   let line ← h.getLine
   if line.isEmpty then return ()
   let ws := (line.trimAscii.toString.splitOn " ").filter (· ≠ "")
   match ws with
   | "open" :: _ => IO.println "> open ok"; loop h {}
+  | ["fcfile", hex] =>
+    let cs := if hex == "-" then [] else hex.toList
+    let rec unhex : List Char → List Nat
+      | a :: b :: t => (hexv a * 16 + hexv b) :: unhex t
+      | _ => []
+    loop h { s with fcfile := unhex cs }
+  | ["fcget", pol, pos, n] =>
+    -- fcache_get on a file of page size 4096 and mmap window 8192 (Kdf.Model.Hist.fcacheGet)
+    let p : Policy := match pol with | "0" => .never | "1" => .always | "2" => .try_ | _ => .tryOnce
+    let (p', out) := fcacheGet s.fcfile 4096 8192 p pos.toNat!
+    let pn := match p' with | .never => 0 | .always => 1 | .try_ => 2 | .tryOnce => 3
+    match out.take n.toNat! with
+    | some bs => IO.println s!"> fcget data {String.ofList (bs.flatMap fun b => [hexd (b / 16), hexd (b % 16)])} {pn}"
+    | none => IO.println s!"> fcget refused {pn}"
+    loop h s
   | ["layout", "dd", ps, mp] => loop h { s with fmt := .dd, ps := ps.toNat!, maxPfn := mp.toNat! }
   | ["layout", "lkcd", ps] => loop h { s with fmt := .lkcd, ps := ps.toNat! }
   | ["layout", "elf", ps] => loop h { s with fmt := .elf, ps := ps.toNat! }
